@@ -452,7 +452,7 @@ def bld_cases(ctx, n, flags_choices, ws=(1, 2, 3), ls=(1, 2, 3), lens=(8, 14, 20
         # K (a service call that panics) needs the plain-Tokio start-up: only there the worker threads carry their index in their name
         reqs.append("seed=%d;W=%d;L=%d;B=%s;S=%s;len=%d;flags=%s" % (
             ctx.rng.randrange(10 ** 9), ctx.rng.choice(ws), ctx.rng.choice(ls), ctx.rng.choice(BLD_CHAINS),
-            "t" if "k" in fl else ctx.rng.choice("at"), ctx.rng.choice(lens), fl))
+            "t" if ("k" in fl or "x" in fl) else ctx.rng.choice("at"), ctx.rng.choice(lens), fl))
     p = subprocess.run([DRIVER, "bldgen"], input="\n".join(reqs) + "\n", stdout=subprocess.PIPE, text=True, timeout=600)
     raw = [l for l in p.stdout.split("\n") if l]
     assert len(raw) == len(reqs) and not any(l.startswith("DRIVER_ERROR") for l in raw), "bldgen failed: %s" % raw[:2]
@@ -469,7 +469,13 @@ def bld_annotate(raw):
 
 
 def bld_strip(t):
-    return t.split(" | retries=")[0]
+    """without the retry count and without the `~new=..;by=..` information about service instances (not part of the model's output)"""
+    return re.sub(r"~[^ ]*", "", t.split(" | retries=")[0])
+
+
+class _Notes(str):
+    """the error notes of a step ('!...'); .info = the `~new=<call>:<n>,..;by=<cid>:<0|1>,..` part, parsed"""
+    info = None
 
 
 def bld_parse_case(case):
@@ -485,7 +491,16 @@ def bld_parse_case(case):
 def bld_parse_trace(trace):
     """-> list of (op, [(cid, call, widx)], [in-progress per worker], notes) or None when unparsable"""
     out = []
-    for s in bld_strip(trace).split(" ; "):
+    for s in trace.split(" | retries=")[0].split(" ; "):
+        info = None
+        if "~" in s:
+            s, raw = s.split("~", 1)
+            try:
+                f = dict(x.split("=", 1) for x in raw.split(";"))
+                info = {"new": {int(a): int(b) for a, b in (y.split(":") for y in f.get("new", "").split(",") if y)},
+                        "by": {int(a): int(b) for a, b in (y.split(":") for y in f.get("by", "").split(",") if y)}}
+            except Exception:  # noqa: BLE001
+                return None
         if s.startswith("!"):
             out.append(("", [], [], s))
             continue
@@ -508,7 +523,9 @@ def bld_parse_trace(trace):
                 if not mm:
                     return None
                 served.append((int(mm.group(1)), int(mm.group(2)), int(mm.group(3))))
-        out.append((m.group(1), served, [int(x) for x in m.group(3).split(".") if x], m.group(4)))
+        notes = _Notes(m.group(4))
+        notes.info = info
+        out.append((m.group(1), served, [int(x) for x in m.group(3).split(".") if x], notes))
     return out
 
 
@@ -528,6 +545,7 @@ def bld_pred(which):
         rr_prev = None
         faulted = False
         blocked = False       # ops B / b: the services answer Pending to their readiness checks (back-pressure)
+        armed_call = None     # ops X / x: the service of this builder call fails its next readiness check
         for k, (op, served, act, notes) in enumerate(steps):
             if notes:
                 # '!' notes: a service call that did not start/end within 30 s, an unacknowledged command, a connect error, a second
@@ -550,9 +568,11 @@ def bld_pred(which):
                 if op[0] == "J":
                     cid += 1
                     tok_of[cid] = int(op[1:].split(":")[1])
-            elif op[0] in "cEA":
+            elif op[0] in "cEAX":
                 cid += 1
                 tok_of[cid] = int(op[1:])
+                if op[0] == "X":
+                    armed_call = tok_call[int(op[1:])]
                 if op[0] == "A":
                     finished.add(cid)      # an abortive client: its service call ends by itself
                 if op[0] == "E":
@@ -570,6 +590,8 @@ def bld_pred(which):
                 paused = op[-1] == "P"
             elif op[0] == "+":
                 backoff = False
+            elif op[0] == "x":
+                armed_call = tok_call[int(op[1:])]
             elif op == "B":
                 blocked = True
             elif op == "b":
@@ -594,6 +616,20 @@ def bld_pred(which):
             if "C02" in which and any(a > L for a in act):
                 return "step %d (%s): in progress per worker %s, limit %d" % (k, op, act, L)
             pending = [c for c in tok_of if c not in served_at]
+            # service instances are created after start-up only to replace a service whose readiness check failed (that service alone,
+            # from its own factory, once) or for a replacement worker (ops K / J)
+            info = getattr(notes, "info", None)
+            if "C07" in which and op and op[0] not in "KJ" and not faulted:
+                new = (info or {}).get("new", {})
+                if armed_call is not None and (op[0] == "X" or (op == "b")):
+                    if new != {armed_call: 1}:
+                        return "step %d (%s): the service of builder call %d failed its readiness check; instances created: %s (expected exactly one of that call)" % (
+                            k, op, armed_call, new or "none")
+                    if op[0] == "X" and (info or {}).get("by", {}).get(cid) != 1:
+                        return "step %d (%s): connection %d was not served by the re-created service instance (%s)" % (k, op, cid, (info or {}).get("by"))
+                    armed_call = None
+                elif new:
+                    return "step %d (%s): service instances created although no readiness check failed and no worker was replaced: %s" % (k, op, new)
             if blocked and served and "C07" in which:
                 return "step %d (%s): service call(s) %s started while every service answered Pending to its readiness check" % (k, op, served)
             if pending and not paused and not backoff and not blocked and op[0] != "E" and any(a < L for a in act[:W]) and len(act) >= W:
